@@ -1154,6 +1154,10 @@ func wrapAny(val Node, targetType *Type) Node {
 		case *GroupExpression:
 			v.Expr = wrapAny(v.Expr, targetType)
 			return v
+		case *SliceExpression:
+			v.Left = wrapAny(v.Left, targetType)
+			v.T = targetType
+			return v
 		}
 		panic(fmt.Sprintf("internal error: untyped array: %s incompatible types: target %v, value %v", val.Token().Location(), targetType, valType))
 	}
